@@ -375,6 +375,8 @@ OPEN_C03_FINDINGS = [w('local a = { c -- k\n = bar() }\n', oracle="comments"),  
     w('local t = { a -- c\n, -- d\n b }\n', oracle="comments"), w('foo(a -- c\n, -- d\n b)\n', oracle="comments"), w('return a -- c\n, -- d\n b\n', oracle="comments")]   # D28, one per formatter
 LIST_WITNESSES = [w('local aaaa, bbbb, cccc = ffff(1111, 2222), gggg(3333), hhhh -- c\naaaa.b, cccc[1] = xxxx + yyyy * zzzz, function() return 1 end\nfoo(aaaa, bbbb, { cccc = 1 }, function() return dddd, eeee end)\nfunction m.a.b:c(pppp, qqqq, ...) return pppp, qqqq, ... end\n', oracle="tree", sweep=(10, 120)),
                   w('for kkkk, vvvv in pairs(tttt), nil, nil do end\nlocal t = { aaaa = 1, [2] = bbbb, cccc, dddd = { eeee, ffff }; gggg }\nlocal u = {\n  1, 2;\n  3 }\n', oracle="tree", sweep=(10, 120))]
+# seed C02-8: Luau type annotations of a multi-name local, some names annotated and some not, at every width
+LOCAL_TYPES_WITNESSES = [w('local okay, response: Response = pcall(requestrequestrequest, argumentargument, argumentargument)\nlocal first: boolean, second, third: string = computecomputecompute(aaaaaaaa), bbbbbbbbbbbbbbbb, cccccccccccccccc\nlocal a, b: number\n', oracle="tree", syntax="luau", sweep=(10, 120))]
 RETURN_WITNESSES = [w('local function f()\n  return -- c\n    aaaa(1111), bbbb + cccc * dddd, eeee\nend\nlocal function g() return function() end, { 1, 2 } end\nlocal function h()\n  return aaaa and bbbb or cccc, -- d\n    dddd\nend\nreturn\n', oracle="tree", sweep=(10, 120)),
                     w('return aaaa(1111), bbbb + cccc * dddd, { eeee = ffff }, function() return 1 end\n', oracle="tree", sweep=(10, 120))]
 # D42: `//` exists in full_moon under luau or lua53; the trivia impls of BinOp listed it under lua53 only
@@ -393,7 +395,7 @@ WITNESSES = {
     "C03.join_": JOIN_COMMENT_WITNESSES, "C01.collapsed_function_return_type": RETURN_TYPE_COMMENT_WITNESSES, "C03.hang_binop": HUNG_PAREN_COMMENT_WITNESSES,
     "C03.update_trivia_contract": FEATURE_SET_WITNESSES + C10_WITNESSES[:2], "C03.update_leading": C10_WITNESSES[:2], "C03.update_trailing": C10_WITNESSES[:2], "C03.token_": C10_WITNESSES[:2],
     "C03.span_proxy": C10_WITNESSES[:2], "C03.binop_proxy": FEATURE_SET_WITNESSES, "C03.list_update_loop": LIST_WITNESSES[:1],
-    "C02.list_": LIST_WITNESSES, "C02.assignment": LIST_WITNESSES, "C02.local_assignment": LIST_WITNESSES, "C02.return_": RETURN_WITNESSES,
+    "C02.list_": LIST_WITNESSES, "C02.assignment": LIST_WITNESSES, "C02.local_assignment": LIST_WITNESSES + LOCAL_TYPES_WITNESSES, "C02.return_": RETURN_WITNESSES,
     "C02.table_": LIST_WITNESSES[1:] + TABLE_COMMENT_WITNESSES, "C08.table_": LIST_WITNESSES[1:] + BLOCK_WITNESSES, "C02.function_name": LIST_WITNESSES[:1], "C02.argument_multiline": LIST_WITNESSES[:1],
     "C03.condition": COND_COMMENT_WITNESSES, "C02.condition": COND_COMMENT_WITNESSES,
     "C02.stmt": COLLAPSE_WITNESSES, "C02.if_guard": COLLAPSE_WITNESSES, "C02.simple_block": COLLAPSE_WITNESSES, "C02.collapsed_function": COLLAPSE_WITNESSES, "C02.format_if": COLLAPSE_WITNESSES + COND_COMMENT_WITNESSES,
@@ -419,7 +421,7 @@ WITNESSES = {
 }
 
 C01_BOUNDED = RETURN_TYPE_COMMENT_WITNESSES[:1] + INTERPOLATED_TABLE_WITNESSES + TYPE_PACK_FINDINGS + HEADER_COMMENT_WITNESSES + D39_WITNESSES[:3] + LUAU_TYPE_FIX_WITNESSES[:1] + [x for x in COLLAPSE_WITNESSES if x["oracle"] == "comments"] + BRACKET_WITNESSES + REHANG_WITNESSES[1:] + BINOP_COMMENT_WITNESSES + CALL_COMMENT_WITNESSES[:1] + PARAM_COMMENT_WITNESSES + UNOP_COMMENT_WITNESSES + ARG_PAREN_COMMENT_WITNESSES + [LINE_SAFE_WITNESSES[i] for i in (0, 2, 4)] + LOCAL_COMMENT_WITNESSES + OPEN_COMMENT_FINDINGS + D30_FINDINGS
-C02_BOUNDED = COLLAPSE_LUAU_WITNESSES[:1] + TYPE_WITNESSES + LUAU_TYPE_FIX_WITNESSES[:1] + [x for x in COLLAPSE_WITNESSES if x["oracle"] == "tree"] + CALL_COMMENT_WITNESSES[1:] + [LINE_SAFE_WITNESSES[i] for i in (1, 3)] + ATTR_COMMENT_WITNESSES + D30_TREE_FINDINGS
+C02_BOUNDED = LOCAL_TYPES_WITNESSES + COLLAPSE_LUAU_WITNESSES[:1] + TYPE_WITNESSES + LUAU_TYPE_FIX_WITNESSES[:1] + [x for x in COLLAPSE_WITNESSES if x["oracle"] == "tree"] + CALL_COMMENT_WITNESSES[1:] + [LINE_SAFE_WITNESSES[i] for i in (1, 3)] + ATTR_COMMENT_WITNESSES + D30_TREE_FINDINGS
 C03_BOUNDED = (JOIN_COMMENT_WITNESSES + HUNG_PAREN_COMMENT_WITNESSES + RETURN_TYPE_COMMENT_WITNESSES[1:] + D39_WITNESSES[3:] + LUAU_TYPE_FIX_WITNESSES[1:] + TABLE_COMMENT_WITNESSES + COND_COMMENT_WITNESSES + SEMI_COMMENT_WITNESSES + [x for x in COLLAPSE_WITNESSES if x["oracle"] == "comments"][:2]
                + PAREN_COMMENT_WITNESSES + REHANG_WITNESSES[:1] + SORT_COMMENT_WITNESSES + FIELD_COMMENT_WITNESSES + OPEN_C03_FINDINGS)
 def nest(n, open_, close): return "local v = " + "".join(open_ for _ in range(n)) + "1" + "".join(close for _ in range(n)) + "\n"
